@@ -2261,12 +2261,28 @@ fn probe_semi_anti_parallel(
                 None
             };
 
-            // Get direct i64 values if available
-            let i64_values: Option<&[i64]> = probe_key_arr.as_ref().and_then(|arr| {
-                arr.as_any()
-                    .downcast_ref::<Int64Array>()
-                    .map(|a| a.values().as_ref())
+            // Get direct i64 values if available. Date32 / Int32 keys are
+            // i64-compatible on the BUILD side (the i64 map and the
+            // direct-address table both widen them), so the build may have
+            // skipped every other candidate source: widen the probe keys the
+            // same way instead of falling through to an empty generic table.
+            let widened_i64: Option<Vec<i64>> = probe_key_arr.as_ref().and_then(|arr| {
+                if let Some(a) = arr.as_any().downcast_ref::<arrow::array::Date32Array>() {
+                    Some(a.values().iter().map(|v| *v as i64).collect())
+                } else {
+                    arr.as_any()
+                        .downcast_ref::<arrow::array::Int32Array>()
+                        .map(|a| a.values().iter().map(|v| *v as i64).collect())
+                }
             });
+            let i64_values: Option<&[i64]> = probe_key_arr
+                .as_ref()
+                .and_then(|arr| {
+                    arr.as_any()
+                        .downcast_ref::<Int64Array>()
+                        .map(|a| a.values().as_ref())
+                })
+                .or(widened_i64.as_deref());
             let null_bitmap = probe_key_arr.as_ref().and_then(|arr| arr.nulls().cloned());
 
             let n_rows = probe_batch.num_rows();
